@@ -169,6 +169,23 @@ func (config Config) NewSession(nic string) (session *Session, err error) {
 		return nil, fmt.Errorf("invalid PurgeDeadline=%v: %w", session.PurgeDeadline, ErrInvalidParam)
 	}
 
+	// create our own Host entry manually because we don't create for host packets.
+	// This must happen before the goroutines below start: purge reads these entries.
+	host, _ := session.findOrCreateHostWithLock(session.NICInfo.HostAddr4)
+	host.LastSeen = time.Now().Add(time.Hour * 24 * 365) // never expire
+	host.MACEntry.LastSeen = host.LastSeen
+	host.MACEntry.IP4 = host.Addr.IP
+	host.MACEntry.IP6LLA = session.NICInfo.HostLLA.Addr()
+	host.Online = true
+	host.MACEntry.Online = true
+
+	// create the router entry manually and set router flag
+	host, _ = session.findOrCreateHostWithLock(session.NICInfo.RouterAddr4)
+	host.MACEntry.IsRouter = true
+	host.MACEntry.IP4 = host.Addr.IP
+	host.Online = true
+	host.MACEntry.Online = true
+
 	// Setup a goroutine to monitor the nic to ensure we receive IP packets frequently.
 	// If the nic stops receiving IP packets, it is likely the switch port is disabled
 	// and our best option is to stop and likely restart.
@@ -209,22 +226,6 @@ func (config Config) NewSession(nic string) (session *Session, err error) {
 			}
 		}
 	}(session)
-
-	// create our own Host entry manually because we don't create for host packets
-	host, _ := session.findOrCreateHostWithLock(session.NICInfo.HostAddr4)
-	host.LastSeen = time.Now().Add(time.Hour * 24 * 365) // never expire
-	host.MACEntry.LastSeen = host.LastSeen
-	host.MACEntry.IP4 = host.Addr.IP
-	host.MACEntry.IP6LLA = session.NICInfo.HostLLA.Addr()
-	host.Online = true
-	host.MACEntry.Online = true
-
-	// create the router entry manually and set router flag
-	host, _ = session.findOrCreateHostWithLock(session.NICInfo.RouterAddr4)
-	host.MACEntry.IsRouter = true
-	host.MACEntry.IP4 = host.Addr.IP
-	host.Online = true
-	host.MACEntry.Online = true
 
 	return session, nil
 }
